@@ -111,6 +111,7 @@ pub struct Outcome {
 }
 
 thread_local! {
+    pub static LAST_PANIC_FN: std::cell::RefCell<String> = const { std::cell::RefCell::new(String::new()) };
     pub static LAST_PANIC: std::cell::RefCell<String> = const { std::cell::RefCell::new(String::new()) };
 }
 
@@ -119,8 +120,24 @@ pub fn install_panic_hook() {
         let loc = info.location().map(|l| format!("{}:{}", l.file(), l.line())).unwrap_or_default();
         let msg = if let Some(s) = info.payload().downcast_ref::<&str>() { s.to_string() }
             else if let Some(s) = info.payload().downcast_ref::<String>() { s.clone() } else { "?".into() };
+        // innermost frame of the code under test (function name, no line): names the site of the panic
+        let bt = std::backtrace::Backtrace::force_capture().to_string();
+        let mut func = String::new();
+        let lines: Vec<&str> = bt.lines().collect();
+        for w in lines.windows(2) {
+            let (name, at) = (w[0].trim(), w[1].trim());
+            let Some(path) = at.strip_prefix("at ") else { continue };
+            if path.starts_with("/rustc/") || path.starts_with("./engine/") || path.contains("/engine/src/") { continue; }
+            let file = path.split(':').next().unwrap_or(path);
+            let file = file.rsplit_once("/src/").map(|(a, b)| format!("{}/{}", a.rsplit('/').next().unwrap_or(""), b)).unwrap_or(file.to_string());
+            let name = name.split_once(": ").map(|(_, s)| s).unwrap_or(name);
+            let name = name.split('<').next().unwrap_or(name);
+            func = format!("{file}::{name}");
+            break;
+        }
+        LAST_PANIC_FN.with(|p| *p.borrow_mut() = func);
         LAST_PANIC.with(|p| *p.borrow_mut() = format!("{msg} @ {loc}"));
-        if std::env::var_os("VF_SHOW_PANICS").is_some() { eprintln!("panic: {msg} @ {loc}"); }
+        if std::env::var_os("VF_SHOW_PANICS").is_some() { eprintln!("panic: {msg} @ {loc}\n{bt}"); }
     }));
 }
 
@@ -197,9 +214,11 @@ pub fn run_parts(ctx: &Ctx, parts: &[Part]) -> Outcome {
         let stop = AtomicBool::new(false);
         let viol: Mutex<Vec<(String, PathBuf)>> = Mutex::new(vec![]);
         let done = AtomicU64::new(0);
+        let keep_going = std::env::var_os("VF_KEEP_GOING").is_some();
+        let survey: Mutex<BTreeMap<String, (String, PathBuf)>> = Mutex::new(BTreeMap::new());
         std::thread::scope(|s| {
             for w in 0..threads {
-                let (stats, stop, viol, known, done) = (&stats, &stop, &viol, &known, &done);
+                let (stats, stop, viol, known, done, survey) = (&stats, &stop, &viol, &known, &done, &survey);
                 let cases = total / threads as u32 + if (w as u32) < total % threads as u32 { 1 } else { 0 };
                 std::thread::Builder::new().stack_size(64 << 20).spawn_scoped(s, move || {
                     let mut seed_bytes = [0u8; 32];
@@ -232,7 +251,15 @@ pub fn run_parts(ctx: &Ctx, parts: &[Part]) -> Outcome {
                             if st.samples.len() < 6 && !rep.discard { if let Some(s) = &rep.sample { if rep.nontrivial || st.cases > 20 { st.samples.push(s.clone()); } } }
                             done.fetch_add(1, Ordering::Relaxed);
                         }
-                        if unk.is_empty() { Ok(()) } else {
+                        if unk.is_empty() { Ok(()) } else if keep_going {
+                            // survey mode: record the first case of every distinct unknown signature, do not stop or shrink
+                            let mut seen = survey.lock().unwrap();
+                            if !seen.contains_key(&unk[0].signature) && seen.len() < 200 {
+                                let path = write_replay(ctx, part.name, &genome, &rep, &unk);
+                                seen.insert(unk[0].signature.clone(), (unk[0].detail.clone(), path));
+                            }
+                            Ok(())
+                        } else {
                             shrinking.set(true);
                             if shrink_started.get().is_none() { shrink_started.set(Some(Instant::now())); }
                             stop.store(true, Ordering::Relaxed);
@@ -256,6 +283,7 @@ pub fn run_parts(ctx: &Ctx, parts: &[Part]) -> Outcome {
                 }).expect("spawn");
             }
         });
+        for (sig, (detail, path)) in survey.into_inner().unwrap() { viol.lock().unwrap().push((format!("{sig} :: {detail}"), path)); }
         let st = stats.into_inner().unwrap();
         for (sig, n) in &st.known_hits {
             let k = known.iter().find(|k| &k.signature == sig).unwrap();
